@@ -36,10 +36,11 @@ META = {
     "design_ref": "DESIGN.md section 4 C04",
 }
 
-ACTIONS = ["FlipByte", "Truncate", "SpliceToken", "SetNumber", "SetHex", "NestDeep", "MakeCycle", "DropKeyword", "SwapEntry"]
-GUARDS = ["prev", "len", "bracket", "nest", "search"]
+ACTIONS = ["FlipByte", "Truncate", "SpliceToken", "SetNumber", "SetHex", "NestDeep", "MakeCycle", "DropKeyword", "SwapEntry",
+           "RepeatToken", "PadTail"]
+GUARDS = ["prev", "len", "bracket", "nest", "search", "window"]
 GUARD_ACTIONS = {"prev": ["StepPrevFirst", "StepPrevIter"], "len": ["StepLen"], "bracket": ["StepBracket"], "nest": ["StepNest"],
-                 "search": ["StepSearch"]}
+                 "search": ["StepSearch"], "window": ["StepSearch"]}
 GROUP = {"load": "file", "incload": "file"}
 MIB = 1 << 20
 
@@ -215,28 +216,43 @@ def run(tier):
     # ---------------------------------------------------------------- cases
     cases, meta, seen = [], [], set()
 
-    def add(ep, data, d, m):
-        key = hashlib.sha1(("%s|%s|%s" % (ep, bytes(data).hex(), json.dumps(d, sort_keys=True))).encode()).hexdigest()
+    def add(ep, data, d, m, reps=None):
+        key = hashlib.sha1(("%s|%s|%s|%s" % (ep, bytes(data).hex(), json.dumps(d, sort_keys=True), reps)).encode()).hexdigest()
         if key in seen:
             return
         seen.add(key)
         c = {"id": len(cases), "ep": ep, "hex": bytes(data).hex(), "dict": d}
-        c.update(limits(len(data)))
+        n = len(data)
+        if reps:
+            # the worker writes n copies where TLC wrote a few; limits follow the real length; the stack is that of an
+            # ordinary spawned thread (2 MiB), which is where an application's parser runs
+            c["reps"] = reps
+            c["stack_kb"] = 2048
+            n += sum((r[3] - (r[1] - r[0] + 1) // max(r[2], 1)) * r[2] for r in reps)
+        c.update(limits(n))
         if ep == "load" and m.get("dig"):
             c["want_dig"] = True
         cases.append(c)
-        m = dict(m, key=key, group=GROUP.get(ep, ep), n=len(data))
+        m = dict(m, key=key, group=GROUP.get(ep, ep), n=n)
         meta.append(m)
 
     for ri, r in enumerate(records):
         src = "tlc:producer" if r["_mode"] == "producer" else "tlc:seed:" + r["tag"]
-        base = {"src": src, "muts": r["muts"], "trivial": r["round"] == 0, "rdok": r["rdok"], "neutral": r["neutral"], "rec": ri,
+        base = {"src": src, "muts": r["muts"], "trivial": r["round"] == 0, "rdok": r["rdok"], "neutral": r["neutral"], "rec": ri, "rep": "",
                 "wzero": (w_zero(r["dict"]) and count_huge(r["dict"])) or (r["ep"] == "file" and bool(W000.search(bytes(r["bytes"])))),
                 "nest": []}
         eps = ["load", "incload"] if r["ep"] == "file" else [r["ep"]]
         for ep in eps:
             add(ep, r["bytes"], r["dict"], dict(base, dig=(r["ep"] == "file")))
-            if r["nests"]:
+            if r.get("reps"):
+                # the repetition written out in full; named after the unit repeated most often (>= 10^4 times)
+                big = [(m["idx"], bytes(m["v"])) for m in r["muts"] if m["k"] in ("RepeatToken", "PadTail") and m["a"] != "noop" and m["idx"] >= 10000]
+                rep = ""
+                if big:
+                    unit = max(big)[1]
+                    rep = re.sub(r"[^A-Za-z0-9%()<>\[\]]", "", unit.decode("latin-1")) or "x%02X" % unit[0]
+                add(ep, r["bytes"], r["dict"], dict(base, rep=rep, neutral=False), reps=r["reps"])
+            elif r["nests"]:
                 # the array / dictionary nesting with the greatest depth is what the classifier will name
                 deep = [(m["idx"], m["a"].split(".")[0]) for m in r["muts"] if m["k"] == "NestDeep" and m["a"] != "noop" and not m["a"].startswith("str")]
                 for amp in (30, 300):
@@ -319,7 +335,7 @@ def run(tier):
             for bc in read_ndjson(bpath):
                 bulk_meta[bc["id"]] = bc
         bc = bulk_meta[i]
-        return {"src": bc["src"], "muts": bc["muts"], "group": "file", "n": bc["len"], "nest": [],
+        return {"src": bc["src"], "muts": bc["muts"], "group": "file", "n": bc["len"], "nest": [], "rep": "",
                 "wzero": bool(W000.search(bytes.fromhex(bc["hex"]))), "trivial": False}, bc
 
     executed = 0
@@ -349,16 +365,16 @@ def run(tier):
                        "loc": (o.get("loc") or "").rsplit(":", 1)[0], "mcl": o.get("mcl") or "",
                        "refused": digits(o.get("refused")), "peak": digits(o.get("peak")), "len": m["n"], "dict": c.get("dict") or [],
                        "bytes": list(big_number_windows(bytes.fromhex(c["hex"]))) if need_bytes else [],
-                       "nest": m["nest"], "wzero": bool(m["wzero"])})
+                       "nest": m["nest"], "rep": m.get("rep", ""), "wzero": bool(m["wzero"])})
     ctl = [
         {"id": -1, "group": "file", "ep": "load", "kind": "panic", "loc": "lopdf:injected.rs", "mcl": "add-overflow", "refused": [], "peak": [], "len": 100,
-         "dict": [], "bytes": [], "nest": [], "wzero": False},
+         "dict": [], "bytes": [], "nest": [], "rep": "", "wzero": False},
         {"id": -2, "group": "filter", "ep": "filter", "kind": "err", "loc": "", "mcl": "", "refused": digits(1 << 32), "peak": [], "len": 100,
-         "dict": [], "bytes": [], "nest": [], "wzero": False},
+         "dict": [], "bytes": [], "nest": [], "rep": "", "wzero": False},
         {"id": -3, "group": "filter", "ep": "filter", "kind": "err", "loc": "", "mcl": "", "refused": digits((1 << 63) - 1), "peak": digits(5000), "len": 100,
-         "dict": [], "bytes": [], "nest": [], "wzero": False},
+         "dict": [], "bytes": [], "nest": [], "rep": "", "wzero": False},
         {"id": -4, "group": "file", "ep": "load", "kind": "hang", "loc": "", "mcl": "", "refused": [], "peak": [], "len": 100,
-         "dict": [], "bytes": [], "nest": [], "wzero": False},
+         "dict": [], "bytes": [], "nest": [], "rep": "", "wzero": False},
     ]
     verdicts, s2, t2 = vlib.validate_trace("Trace_Adversary.tla", "Trace_Adversary.cfg", judged + ctl, "c04judge",
                                            boundaries=list(range(len(judged) + len(ctl))), chunks=1 if quick else 8)
@@ -381,8 +397,9 @@ def run(tier):
         by_sig[v["sig"]] += 1
         chk.violation(v["sig"], {"entry_point": c["ep"], "outcome": o["kind"], "msg": o.get("msg", ""), "loc": o.get("loc", ""),
                                  "refused_allocation": o.get("refused", 0), "peak_live_bytes": o.get("peak", 0), "source": m["src"], "mutations": fmt_muts(m["muts"]),
-                                 "amplified_x": m.get("amp", 1), "input_len": m["n"], "hex": c["hex"] if m["n"] <= 4096 else c["hex"][:8192] + "...",
-                                 "dict": c.get("dict") or [], "note": o.get("note", "")})
+                                 "amplified_x": m.get("amp", 1), "input_len": m["n"], "hex": c["hex"] if len(c["hex"]) <= 8192 else c["hex"][:8192] + "...",
+                                 "dict": c.get("dict") or [], "reps": c.get("reps") or [], "stack_kb": c.get("stack_kb", 8192),
+                                 "note": o.get("note", "")})
 
     # drift note (C02's subject): a mutation the StrictReader calls neutral should not change what lopdf loads
     base_dig = {}
@@ -455,7 +472,9 @@ def replay(path):
         return 2
     w = workdir("c04replay")
     c = {"id": 0, "ep": d["entry_point"], "hex": d["hex"], "dict": d.get("dict") or []}
-    c.update(limits(len(d["hex"]) // 2))
+    c.update(limits(d.get("input_len", len(d["hex"]) // 2)))
+    if d.get("reps"):
+        c["reps"], c["stack_kb"] = d["reps"], d.get("stack_kb", 2048)
     cin, cout = os.path.join(w, "in.ndjson"), os.path.join(w, "out.ndjson")
     write_ndjson(cin, [c])
     run_bin("c04", ["run", "--in", cin, "--out", cout, "--jobs", 1])
